@@ -291,8 +291,14 @@ func Plan(prop string, md mode) func(tier string) *harness.Plan {
 		nAlloc := 0
 		if md == ModeMemory {
 			nAlloc = 2
+		} else {
+			nAlloc = len(wrapPrograms)
 		}
 		run := func(w *harness.W, u int) {
+			if md == ModeResults && u >= len(progs) {
+				wrapCycle(w, wrapPrograms[u-len(progs)])
+				return
+			}
 			if u == len(progs)+1 {
 				visitedCapSweep(w, thorough)
 				return
@@ -313,7 +319,7 @@ func Plan(prop string, md mode) func(tier string) *harness.Plan {
 			Units: len(progs) + nAlloc, Chunk: 1, Run: run,
 			Describe: func(u int) string {
 				if u >= len(progs) {
-					return "allocation sweep"
+					return "allocation sweep / cap sweep / generation-cycle histories"
 				}
 				return "program " + progs[u].String()
 			},
@@ -543,6 +549,60 @@ func allocSweep(w *harness.W, thorough bool) {
 	w.C["distinct_nontrivial"] += n
 	w.C["traces_validated_against_impl"] += n
 	w.Sample(map[string]any{"kind": "allocation sweep", "patterns": len(pats), "measurements": n})
+}
+
+// wrapPrograms: start-anchored / capture patterns served by the bounded backtracker, with two long haystacks that
+// drive the search to the far end of the visited table (one matching only through its last bytes, one not matching)
+// and a short one.
+var wrapPrograms = []struct {
+	pattern string
+	long    [2]string
+	short   string
+}{
+	{`^([ab]|c)+d`, [2]string{strings.Repeat("ab", 49) + "cd", strings.Repeat("ab", 50)}, "abd"},
+	{`([a-z])+[0-9]`, [2]string{strings.Repeat("xy", 40) + "z7", strings.Repeat("xy", 41)}, "q1"},
+	{`^(a|b)*c`, [2]string{strings.Repeat("ab", 30) + "c", strings.Repeat("ba", 31)}, "abc"},
+}
+
+// wrapCycle explores the histories that put a FULL cycle of the backtracker's 16-bit generation counter between long
+// searches — the graph exploration above cannot: its near-wrap variant presets the counter, which reaches the wrap but
+// not the re-use of a generation value by a later search. For every ordered triple (h1, h2, h3) of long haystacks and
+// every number n of short searches in {65533, 65534, 65535, 65536}: h1, h2, n x short, h3 on ONE value; h3's result
+// (FindIndex and Match) must equal its result on a fresh value. Real searches are issued, nothing is preset.
+func wrapCycle(w *harness.W, wp struct {
+	pattern string
+	long    [2]string
+	short   string
+}) {
+	n := int64(0)
+	for _, h1 := range wp.long {
+		for _, h2 := range wp.long {
+			for _, h3 := range wp.long {
+				for _, cycle := range []int{65533, 65534, 65535, 65536} {
+					re := coregex.MustCompile(wp.pattern)
+					fresh := coregex.MustCompile(wp.pattern)
+					re.FindStringIndex(h1)
+					re.FindStringIndex(h2)
+					for i := 0; i < cycle; i++ {
+						re.FindStringIndex(wp.short)
+					}
+					got := fmt.Sprint(re.FindStringIndex(h3), re.MatchString(h3))
+					want := fmt.Sprint(fresh.FindStringIndex(h3), fresh.MatchString(h3))
+					n += int64(cycle) + 3
+					if got != want {
+						w.Fail(&harness.Case{Op: "generation-cycle", Mode: "default", Pattern: wp.pattern, Hay: strconv.Quote(h3), Args: fmt.Sprintf("after [FindIndex(%q), FindIndex(%q), %d x FindIndex(%q)]", h1, h2, cycle, wp.short), Want: want, Got: got, Cluster: "generation-cycle"})
+					}
+				}
+			}
+		}
+	}
+	w.C["generation_cycle_searches"] += n
+	w.C["evaluations"] += n
+	w.C["transitions"] += n
+	w.C["states"] += 32
+	w.C["distinct_nontrivial"] += 32
+	w.C["traces_validated_against_impl"] += n
+	w.Sample(map[string]any{"kind": "full generation-counter cycle histories", "pattern": wp.pattern, "histories": 32, "searches": n})
 }
 
 // visitedCapSweep drives the bounded backtracker directly at the top of its admitted input range: for every ordered
